@@ -199,6 +199,16 @@ theorem weight_update_saliency (eps : ℝ) (aff : Fin K → Fin T → ℝ) (s : 
     simpa [weightSalT, vsum_eq_sum] using this
   · intro h1 hsp k
     exact weightSalT_eq eps aff s h0 h1 hs hsp k
+
+/-- tuple form tied over the class axis with saliency (`(-2,)`): the equal share `1/K` wherever the saliency-weighted
+class sum is positive (fix 07e42d1; before it the stored value was `1`) -/
+theorem weight_update_tied_classes (eps : ℝ) (aff : Fin K → ℝ) (s : ℝ) (hpos : 0 < ∑ k, aff k * s) :
+    weightSalK eps aff s = 1 / K := by
+  have h := (l1Where_sum_one eps (fun _ : Fin 1 => vsum fun k => aff k * s) (fun _ => by rw [vsum_eq_sum]; exact hpos.le)
+    (by simpa [vsum_eq_sum] using hpos)).2.1
+  simp only [weightSalK]
+  rw [Fin.sum_univ_one] at h
+  rw [h]
 end weights
 
 section repetition
